@@ -32,6 +32,11 @@ CHECKS = {
     note="Bounds: 2 worlds, 4 model/mask configurations, naconmax=4, njmax=4. Pre-state arbitrary except 0<=nacon<=naconmax and listed contacts' worldid in range. Sleep-derived arrays recomputed by update_sleep are excluded from 'unchanged'. Three known findings recorded (nacon zeroed, phantom contacts, history not reset). Subsequent-trajectory equality follows from C12 and is not re-derived here.",
     technique="symbolic execution of the real host function with interpreted kernel launches (dense memory) + SMT equality queries per field",
     ref="§4 C13"),
+  "C17": dict(
+    text="Capacity-dimension safety: for each constraint-row builder (dense/sparse), the contact-row allocator and write_contact, one generic thread is executed symbolically with the capacities (njmax, njmax_nnz, naconmax), atomic counters, thread id and all contents symbolic; arrays dimensioned by a capacity get exactly that capacity as shape and every access to them must be inside Warp's accepted index range - decided by z3 for ALL counter/capacity values incl. 0 and exact fit. sat models are replayed on the real compiled kernel under Warp's bounds-checked debug build (out-of-range index aborts).",
+    note="Outside the claim: indices into Model-dimensioned arrays derived from Model structure arrays (MuJoCo compiler invariants), the njmax_nnz dimension of sparse tendon rows (needs the CSR invariant of ten_J), jtdaj bookkeeping arrays, tile kernels, GJK/EPA, flex, rejection of invalid configurations in put_model/make_data, 'never crash' for host code. Bounds: capacities 0..6 (contact rows 0..12), nworld <= 6, loops <= 3 (contacts: 10).",
+    technique="symbolic execution of Warp kernel source (AST -> z3) + SMT bounds queries with symbolic capacities; debug-build replay",
+    ref="§4 C17"),
   "C16": dict(
     text="For every non-flex constraint-row builder (dense/sparse x newton/cg) one generic thread is executed symbolically with capacities, counters, tid and all array contents symbolic: rows this thread allocated that fit njmax / njmax_nnz are completely written (every efc field, dense and sparse Jacobian), written values do not depend on the capacity (relational query), and _next_time sets each overflow bit iff its condition. Unsat = holds for all values within the bounds; sat models are replayed on the real compiled kernel.",
     note="Bounds: loop trip counts <= 3 (nv columns, dof-ancestor walks), array dims <= 6 in replays. Assumes own accesses in bounds; floats abstracted. The njmax_nnz budget is a recorded known finding (two entries in known_findings.txt). Contacts / broadphase / nvmax capacities: see level_note of C17 and evidence.",
@@ -46,7 +51,7 @@ NA_REASON = {
 }
 
 # checks delivered with a meta file (checks/cNN.meta.json: text, note, technique, ref) and listed here as ready
-READY = ["C14", "C15"]
+READY = ["C04", "C14", "C15", "C19", "C20"]
 for pid in READY:
   mf = os.path.join(V, "checks", f"{pid.lower()}.meta.json")
   if pid not in CHECKS and os.path.exists(mf):
